@@ -149,7 +149,9 @@ Section ChanInv.
     | None => down = true /\ forall n, ~ NK n -> c_nicks c0 !! n = None
     end.
 
-  Definition INk (ns : gmap string (N * N)) : Prop := forall n, ~ NK n -> is_Some (ns !! n).
+  (* the nick index: keys outside NK stay occupied (by their owners); keys in NK are free or point to the acting session *)
+  Definition INk (ns : gmap string (N * N)) : Prop :=
+    (forall n, ~ NK n -> is_Some (ns !! n)) /\ (forall n k', NK n -> ns !! n = Some k' -> k' = k).
 
   Definition UpSess (s : session) : Prop :=
     s_nick s = s_nick s0 /\ s_user s = s_user s0 /\ s_prefix s = s_prefix s0 /\ s_remoteAddr s = s_remoteAddr s0 /\
@@ -209,18 +211,23 @@ Section ChanInv.
     apply Hf. now apply H.
   Qed.
 
-  Lemma INk_insert n v ns : INk ns -> INk (<[n := v]> ns).
+  Lemma INk_insert n ns : NK n -> INk ns -> INk (<[n := k]> ns).
   Proof.
-    intros H x Hx. destruct (decide (n = x)) as [->|Hne]; [rewrite lookup_insert; now eexists|].
-    rewrite lookup_insert_ne by exact Hne. now apply H.
+    intros Hn [H1 H2]. split.
+    - intros x Hx. destruct (decide (n = x)) as [->|Hne]; [rewrite lookup_insert; now eexists|].
+      rewrite lookup_insert_ne by exact Hne. now apply H1.
+    - intros x k' Hx. destruct (decide (n = x)) as [->|Hne]; [rewrite lookup_insert; congruence|].
+      rewrite lookup_insert_ne by exact Hne. now apply H2.
   Qed.
   Lemma INk_delete n ns : NK n -> INk ns -> INk (delete n ns).
   Proof.
-    intros Hn H x Hx. destruct (decide (n = x)) as [->|Hne]; [contradiction|].
-    rewrite lookup_delete_ne by exact Hne. now apply H.
+    intros Hn [H1 H2]. split.
+    - intros x Hx. destruct (decide (n = x)) as [->|Hne]; [contradiction|].
+      rewrite lookup_delete_ne by exact Hne. now apply H1.
+    - intros x k' Hx Hl. apply lookup_delete_Some in Hl. destruct Hl as [_ Hl]. eapply H2; eauto.
   Qed.
   Lemma INk_free ns n : INk ns -> ns !! n = None -> NK n.
-  Proof. intros H Hn. destruct (NK_dec n) as [Y|Nn]; [exact Y|]. destruct (H n Nn) as [v Hv]. congruence. Qed.
+  Proof. intros [H _] Hn. destruct (NK_dec n) as [Y|Nn]; [exact Y|]. destruct (H n Nn) as [v Hv]. congruence. Qed.
 
   Lemma IC_lookup chs lc c : IC chs -> chs !! lc = Some c -> chan_to_lower (c_name c) = lc /\ (lc = lc0 -> ChanOK c).
   Proof.
@@ -453,7 +460,7 @@ Section ChanInv.
     intros Hd Hn Ho. unfold change_nick, rename_in_channels.
     apply ok_bind; [apply ok_updSess|intros _].
     { intros _ s (S1 & S2 & S3). split; [exact Hn|split; [exact S2|intros; congruence]]. }
-    apply ok_bind; [apply ok_modS; intros sv HI; apply Iv_set_nicks; [exact HI|apply INk_insert, HI]|intros _].
+    apply ok_bind; [apply ok_modS; intros sv HI; apply Iv_set_nicks; [exact HI|apply INk_insert; [exact Hn|apply HI]]|intros _].
     apply ok_bind; [apply ok_whenM, ok_bind; [|intros _]|intros _].
     - apply ok_modS; intros sv HI; apply Iv_set_nicks; [exact HI|apply INk_delete; [exact Ho|apply HI]].
     - apply ok_modS; intros sv HI; apply Iv_set_channels; [exact HI|apply IC_rename; [exact Ho|exact Hn|apply HI]].
@@ -770,7 +777,9 @@ Definition chan_kept (NK : string -> Prop) (G : Prop) (c c' : chan) : Prop :=
 
 (* the nick key of the acting session after the step is one that was free or its own before *)
 Definition own_nick (k : N * N) (sv sv' : server) : Prop :=
-  forall s', sv_sessions sv' !! k = Some s' -> NKof sv k (nick_to_lower (s_nick s')).
+  (forall s', sv_sessions sv' !! k = Some s' -> NKof sv k (nick_to_lower (s_nick s'))) /\
+  (* and no other session takes a nick key that was free or the acting session's *)
+  (forall n k', NKof sv k n -> sv_nicks sv' !! n = Some k' -> k' = k).
 
 Definition chan_protected_same (k : N * N) (lc : string) (G : chan -> Prop) (sv sv' : server) : Prop :=
   forall c, sv_channels sv !! lc = Some c ->
@@ -780,11 +789,12 @@ Definition chan_protected_same (k : N * N) (lc : string) (G : chan -> Prop) (sv 
 
 Lemma Iv_final e k NK lc c s0 Off down nooper sv' :
   Iv e k NK lc c s0 Off down nooper sv' ->
-  (forall s', sv_sessions sv' !! k = Some s' -> NK (nick_to_lower (s_nick s'))) /\
+  ((forall s', sv_sessions sv' !! k = Some s' -> NK (nick_to_lower (s_nick s'))) /\
+   (forall n k', NK n -> sv_nicks sv' !! n = Some k' -> k' = k)) /\
   ((sv_channels sv' !! lc = None /\ forall n, ~ NK n -> c_nicks c !! n = None) \/
    (exists c', sv_channels sv' !! lc = Some c' /\ chan_kept NK (down = false /\ Gate e lc c s0 Off) c c')).
 Proof.
-  intros ((_ & H0) & _ & HS). split; [intros s' Hs'; apply (HS s' Hs')|]. destruct (sv_channels sv' !! lc) as [c'|].
+  intros ((_ & H0) & (_ & HN) & HS). split; [split; [intros s' Hs'; apply (HS s' Hs')|exact HN]|]. destruct (sv_channels sv' !! lc) as [c'|].
   - right. exists c'. split; [reflexivity|]. destruct H0 as (H1 & H2 & H3 & H4 & H5 & H6 & H7 & H8).
     repeat split; auto.
     + destruct H7 as [H7|(H7 & H7' & _)]; [now left|right; auto].
@@ -814,7 +824,9 @@ Proof.
       exists s, c, v. rewrite Hl. auto.
     + now left.
     + intros Hm. now left.
-  - rewrite Hni. intros n Hn'. destruct (sv_nicks sv !! n) as [k'|] eqn:E; [now eexists|]. exfalso. apply Hn'. now left.
+  - rewrite Hni. split.
+    + intros n Hn'. destruct (sv_nicks sv !! n) as [k'|] eqn:E; [now eexists|]. exfalso. apply Hn'. now left.
+    + intros n k' [Hn'|Hn'] Hl; congruence.
   - intros s' Hs'. rewrite Hs1 in Hs'. injection Hs' as <-. split; [rewrite Hn; exact Hown|split; [exact Hop|]].
     intros _. repeat split; auto. intros Hr. now left.
 Qed.
@@ -918,11 +930,12 @@ Qed.
 (* ---- one log entry ------------------------------------------------------------------------------------------- *)
 Lemma cps_transfer k lc G sva svb sv svb' :
   sv_channels sva = sv_channels sv -> sv_nicks sva = sv_nicks sv -> sv_channels svb' = sv_channels svb ->
+  sv_nicks svb' = sv_nicks svb ->
   (forall s', sv_sessions svb' !! k = Some s' -> sv_sessions svb !! k = Some s') ->
   chan_protected_same k lc G sva svb -> chan_protected_same k lc G sv svb'.
 Proof.
-  intros Hc Hn Hc' Hss H c Hcc. unfold chan_protected_same, own_nick, NKof in *. rewrite Hc, Hn in H. rewrite Hc'.
-  destruct (H c Hcc) as [Hown Hrest]. split; [|exact Hrest]. intros s' Hs'. apply Hown, Hss, Hs'.
+  intros Hc Hn Hc' Hn' Hss H c Hcc. unfold chan_protected_same, own_nick, NKof in *. rewrite Hc, Hn in H. rewrite Hc', Hn'.
+  destruct (H c Hcc) as [[O1 O2] Hrest]. split; [|exact Hrest]. split; [|exact O2]. intros s' Hs'. apply O1, Hss, Hs'.
 Qed.
 
 Lemma cps_refl k lc G sv s :
@@ -942,6 +955,11 @@ Proof.
   destruct (s_server s || s_operator s), (s_deleted s); reflexivity.
 Qed.
 
+Lemma mds_nicks k sv : sv_nicks (maybe_delete_session k sv) = sv_nicks sv.
+Proof.
+  unfold maybe_delete_session. destruct (sv_sessions sv !! k) as [s|]; [|reflexivity].
+  destruct (s_server s || s_operator s), (s_deleted s); reflexivity.
+Qed.
 Lemma mds_sessions k sv k' s' :
   sv_sessions (maybe_delete_session k sv) !! k' = Some s' -> sv_sessions sv !! k' = Some s'.
 Proof.
@@ -967,16 +985,16 @@ Qed.
 Lemma handler_frame e k ra pm sv msgid finish sv' out s lc :
   InvM sv -> sv_sessions sv !! k = Some s -> s_deleted s = false -> s_server s = false ->
   (s_operator s = false \/ forall m, pm = Some m -> oper_cmd (to_upper (m_cmd m)) = false) ->
-  (forall x, sv_channels (finish x) = sv_channels x) ->
+  (forall x, sv_channels (finish x) = sv_channels x) -> (forall x, sv_nicks (finish x) = sv_nicks x) ->
   (forall x s', sv_sessions (finish x) !! k = Some s' -> sv_sessions x !! k = Some s') ->
   run_handler sv msgid (process_message e k ra pm) finish = OOk sv' out ->
   ~ is_chanop sv k lc ->
   chan_protected_same k lc (fun c => exists m, pm = Some m /\ to_upper (m_cmd m) = "JOIN" /\
                                                may_join e (acting_view ra s) lc c (offered m)) sv sv'.
 Proof.
-  intros I Hs Hd Hsrv Hop Hfin Hfs Hrun Hno. unfold run_handler in Hrun.
+  intros I Hs Hd Hsrv Hop Hfin Hfn Hfs Hrun Hno. unfold run_handler in Hrun.
   destruct (process_message e k ra pm sv (RCtx msgid [])) as [[[[] sv2] r2]|?|?] eqn:Hpm; try discriminate.
-  injection Hrun as <- _. eapply (cps_transfer _ _ _ sv sv2); [reflexivity|reflexivity|apply Hfin|apply Hfs|].
+  injection Hrun as <- _. eapply (cps_transfer _ _ _ sv sv2); [reflexivity|reflexivity|apply Hfin|apply Hfn|apply Hfs|].
   destruct pm as [m|].
   - intros c Hc. assert (Hop' : s_operator s = false \/ oper_cmd (to_upper (m_cmd m)) = false) by (destruct Hop; auto).
     destruct (line_frame e k ra m sv _ sv2 r2 s lc I Hs Hd Hsrv Hop' Hpm Hno c Hc) as [Hown [Y|(c' & Hc' & K)]];
@@ -1005,13 +1023,14 @@ Proof.
   unfold update_last_cmid in Hu. rewrite Hs in Hu. injection Hu as <-.
   fold (stamped (timestamp id un) data cmid s) in *.
   set (s1 := stamped (timestamp id un) data cmid s) in *.
-  eapply (cps_transfer _ _ _ (set_sessions (<[(session, 0%N) := s1]>) sv) sv'); [reflexivity|reflexivity|reflexivity|auto|].
-  eapply handler_frame. 8: exact Hap. 1: apply E1.
+  eapply (cps_transfer _ _ _ (set_sessions (<[(session, 0%N) := s1]>) sv) sv'); [reflexivity|reflexivity|reflexivity|reflexivity|auto|].
+  eapply handler_frame. 9: exact Hap. 1: apply E1.
   - cbn [sv_sessions set_sessions]. apply lookup_insert.
   - eapply (e_live _ E1). cbn [sv_sessions set_sessions]. apply lookup_insert.
   - exact Hsrv.
   - exact Hop.
   - intros x. cbv beta. rewrite mds_channels. reflexivity.
+  - intros x. cbv beta. rewrite mds_nicks. reflexivity.
   - intros x s' H. apply mds_sessions in H. exact H.
   - intros Hc. apply Hno. eapply (is_chanop_stamped sv _ s (stamped (timestamp id un) data cmid)); eauto.
 Qed.
@@ -1030,6 +1049,7 @@ Proof.
   pose proof (handler_frame e (session, 0%N) "" (Some (IMsg None "QUIT" ps)) sv id _ sv' out s lc (e_inv sv E) Hs
                 (e_live sv E _ _ Hs) Hsrv (or_intror Hq2)
                 (fun x => mds_channels (session, 0%N) (set_lastProcessed (id, 0%N) x))
+                (fun x => mds_nicks (session, 0%N) (set_lastProcessed (id, 0%N) x))
                 (fun x s' H => mds_sessions (session, 0%N) (set_lastProcessed (id, 0%N) x) _ s' H) Hap Hno) as H.
   intros c Hc. destruct (H c Hc) as [Hown [Y|(c' & Hc' & K)]]; (split; [exact Hown|]); [now left|right]. exists c'. split; [exact Hc'|].
   destruct K as (K1 & K2 & K3 & K4 & K5 & K6 & K7 & K8). repeat split; auto.
@@ -1066,6 +1086,11 @@ Record frame_words (k : N * N) (lc : string) (G : chan -> Prop) (sv sv' : server
   fw_gate : forall c' s', sv_channels sv' !! lc = Some c' -> sv_sessions sv' !! k = Some s' ->
       is_Some (c_nicks c' !! nick_to_lower (s_nick s')) ->
       is_Some (c_nicks c !! nick_to_lower (s_nick s)) \/ G c;
+  (* the member table changes at most in the acting session's own entry (consistency of the new state is what
+     apply_entry_ok provides for well-formed entries) *)
+  fw_members : InvM sv' -> forall c' n, sv_channels sv' !! lc = Some c' -> is_Some (c_nicks c' !! n) ->
+      (exists k', sv_nicks sv !! n = Some k' /\ k' <> k /\ c_nicks c' !! n = c_nicks c !! n) \/
+      (exists s', sv_sessions sv' !! k = Some s' /\ n = nick_to_lower (s_nick s'));
 }.
 
 Lemma cps_words k lc G sv sv' s c :
@@ -1083,14 +1108,19 @@ Proof.
   - intros c' n k' Hc' Hn Hne. destruct Hrest as [[Hnn _]|(c2 & Hc2 & K)]; [congruence|]. rewrite Hc' in Hc2. injection Hc2 as <-.
     destruct K as (_ & _ & _ & _ & K5 & _). apply K5. apply NKof_other. eauto.
   - intros (s' & c' & v & Hs' & Hc' & Hm). destruct Hrest as [[Hnn _]|(c2 & Hc2 & K)]; [congruence|]. rewrite Hc' in Hc2. injection Hc2 as <-.
-    destruct K as (_ & _ & _ & _ & _ & K6 & _). specialize (K6 _ _ _ (Hown s' Hs') Hm). discriminate.
+    destruct K as (_ & _ & _ & _ & _ & K6 & _). specialize (K6 _ _ _ (proj1 Hown s' Hs') Hm). discriminate.
   - intros c' Hc'. destruct Hrest as [[Hnn _]|(c2 & Hc2 & K)]; [congruence|]. rewrite Hc' in Hc2. injection Hc2 as <-.
     destruct K as (_ & _ & _ & _ & _ & _ & K7 & _). destruct K7 as [K7|[Ht Hm]].
     + left. unfold topic3 in K7. injection K7 as -> -> ->. auto.
     + right. split; [exact Ht|]. eapply kmem_before; eauto.
   - intros c' s' Hc' Hs' Hm. destruct Hrest as [[Hnn _]|(c2 & Hc2 & K)]; [congruence|]. rewrite Hc' in Hc2. injection Hc2 as <-.
     destruct K as (_ & _ & _ & _ & _ & _ & _ & K8).
-    destruct K8 as [Y|Y]; [exists (nick_to_lower (s_nick s')); split; [apply Hown, Hs'|exact Hm]|left; eapply kmem_before; eauto|now right].
+    destruct K8 as [Y|Y]; [exists (nick_to_lower (s_nick s')); split; [apply (proj1 Hown), Hs'|exact Hm]|left; eapply kmem_before; eauto|now right].
+  - intros I' c' n Hc' [p Hp]. destruct Hrest as [[Hnn _]|(c2 & Hc2 & K)]; [congruence|]. rewrite Hc' in Hc2. injection Hc2 as <-.
+    destruct K as (_ & _ & _ & _ & K5 & _). destruct (NKof_dec sv k n) as [Hn|Hn].
+    + right. destruct (i_memb_c sv' I' _ _ _ _ Hc' Hp) as (k2 & s2 & Hk2 & Hs2 & _).
+      pose proof (proj2 Hown _ _ Hn Hk2) as ->. destruct (i_idx_sound sv' I' _ _ Hk2) as (_ & s3 & Hs3 & _ & Hl). exists s3. auto.
+    + left. pose proof (proj1 (NKof_other sv k n) Hn) as (k' & Hk' & Hne). exists k'. split; [exact Hk'|]. split; [exact Hne|]. now apply K5.
 Qed.
 
 (* C13, global frame and membership gate, for every client line in the log *)
